@@ -218,10 +218,19 @@ class Impl:
         return [self.name_of[i] for i, b in zip(self.ids, out[1]) if b]
 
 
+CAPS = {"malformed-crash": 30, "malformed-accepted": 30}
+
+
 def viol(ctx, key, what, replay, found_input=True):
-    """ctx.violation, once per key"""
+    """ctx.violation, once per key, and at most CAPS (default 3) witnesses per category (the part of the key before ':')"""
     seen = ctx.__dict__.setdefault("_c19_keys", set())
+    counts = ctx.__dict__.setdefault("_c19_counts", {})
     if key in seen:
+        return
+    cat = key.split(":")[0]
+    counts[cat] = counts.get(cat, 0) + 1
+    if counts[cat] > CAPS.get(cat, 3):
+        ctx.coverage["further_witnesses_not_listed"] = {c: n - CAPS.get(c, 3) for c, n in counts.items() if n > CAPS.get(c, 3)}
         return
     seen.add(key)
     ctx.violation(key, what, replay, found_input=found_input)
@@ -491,79 +500,107 @@ def describe_digest(impl, dg):
     return {3: "out of fuel", 4: "exit(0)"}.get(dg[0], "?")
 
 
-EXH_TMPL = r"""From Coq Require Import NArith ZArith List Bool.
+EXH_DEFS = r"""From Coq Require Import NArith ZArith List Bool.
 Import ListNotations.
 From NV Require Import Flags.FlagsModel Flags.FlagsProps Flags.FlagsTable.
-Definition W : nat := (length (mflags gm) + 2)%%nat.
+Definition W : nat := (length (mflags gm) + 2)%nat.
 Definition tagE : N := N.shiftl 1 (N.of_nat (W - 1)).
-Definition tagC : N := (tagE + N.shiftl 1 (N.of_nat (W - 2)))%%N.
+Definition tagC : N := (tagE + N.shiftl 1 (N.of_nat (W - 2)))%N.
+(* one resolve result as a number: the on/off bits in table order, or a tagged error / crash code *)
 Definition rdig (r : result config) : N :=
   match r with
-  | Ok c => fold_left (fun (acc : N) (b : bool) => (2 * acc + (if b then 1 else 0))%%N) (bview gm c) 0%%N
-  | Error (EConflict a b) => (tagE + a * 1024 + b)%%N
-  | Error _ => (tagE + 1023 * 1024)%%N
-  | Crash KeyError => (tagC + 1)%%N
-  | Crash ValueError => (tagC + 2)%%N
-  | Fuel => (tagC + 3)%%N
+  | Ok c => fold_left (fun (acc : N) (b : bool) => (2 * acc + (if b then 1 else 0))%N) (bview gm c) 0%N
+  | Error (EConflict a b) => (tagE + a * 1024 + b)%N
+  | Error _ => (tagE + 1023 * 1024)%N
+  | Crash KeyError => (tagC + 1)%N
+  | Crash ValueError => (tagC + 2)%N
+  | Fuel => (tagC + 3)%N
   end.
-(* W bits of d, most significant first, appended as the low bits of acc *)
-Fixpoint pushN (w : nat) (d : N) (acc : positive) : positive :=
-  match w with O => acc | S w' => pushN w' d (if N.testbit_nat d w' then xI acc else xO acc) end.
 Fixpoint fold_assigns {A} (fs : list N) (f : list (N * bool) -> A -> A) (acc : A) : A :=
   match fs with
   | [] => f [] acc
   | x :: r => fold_assigns r (fun l acc => f ((x, false) :: l) (f ((x, true) :: l) (f l acc))) acc
   end.
-Definition K : nat := %(K)d.
-Definition step (d : N) (st : nat * positive * list positive) : nat * positive * list positive :=
-  let '(n, cur, out) := st in
-  let cur' := pushN W d cur in
-  if Nat.eqb (S n) K then (O, xH, cur' :: out) else (S n, cur', out).
 Definition rest : list N := skipn split_at (relevant gm).
-Definition shard_digests (i : nat) (lv : Z) : list positive :=
+(* results of shard i at level lv, in REVERSE processing order (consed) *)
+Definition shard_digests (i : nat) (lv : nat) : list N :=
   match nth_error (prefixes gm) i with
   | Some pre => let rf := fast_resolve gm in
-      let '(n, cur, out) := fold_assigns rest (fun l st => step (rdig (rf lv (pre ++ l))) st) (O, xH, []) in
-      if Nat.eqb n O then out else cur :: out
+      fold_assigns rest (fun l acc => rdig (rf (Z.of_nat lv) (pre ++ l)) :: acc) []
   | None => []
   end.
-Set Printing Width 100000000.
-Set Printing Depth 100000000.
+Definition n_shards : nat := length (prefixes gm).
+Definition n_levels : nat := length (mlevels gm).
+"""
+
+EXH_MAIN = r"""open Flags_ex
+let rec int_of_pos = function XH -> 1 | XO p -> 2 * int_of_pos p | XI p -> 2 * int_of_pos p + 1
+let int_of_n = function N0 -> 0 | Npos p -> int_of_pos p
+let rec int_of_nat = function O -> 0 | S n -> 1 + int_of_nat n
+let rec nat_of_int n = if n = 0 then O else S (nat_of_int (n - 1))
+let () =
+  let ns = int_of_nat n_shards and nl = int_of_nat n_levels in
+  for i = 0 to ns - 1 do
+    for lv = 0 to nl - 1 do
+      let l = shard_digests (nat_of_int i) (nat_of_int lv) in
+      Printf.printf "S %d %d" i lv;
+      List.iter (fun d -> Printf.printf " %d" (int_of_n d)) (List.rev l);
+      print_newline ()
+    done
+  done
 """
 
 
-def exhaustive_model(ctx, impl, nshards):
-    """model results on the whole 3^k x levels domain, computed by vm_compute: {(shard, level): [ints]}"""
-    K = 81
-    W = len(impl.ids) + 2
-    paths = []
-    for i in range(nshards):
-        p = os.path.join(WORK, "exh_%d.v" % i)
-        L = [EXH_TMPL % {"K": K}]
-        for lv in impl.levels:
-            L.append("Eval vm_compute in (%d%%nat, %d%%Z, shard_digests %d %d)." % (i, lv, i, lv))
-        open(p, "w").write("\n".join(L) + "\n")
-        paths.append(p)
-    with ThreadPoolExecutor(max_workers=common.NCPU) as ex:
-        outs = list(ex.map(lambda p_: common.coqc_file(p_, timeout=900), paths))
+def exhaustive_model(ctx, impl):
+    """the model's results on the whole 3^k x levels domain: {(shard, level): [ints in processing order]}.
+    Volume path: the Gallina definitions are extracted (ExtrOcamlBasic only) and run natively; a sample of the
+    extracted results is re-evaluated by the kernel's VM in the same run."""
+    d = os.path.join(WORK, "ex")
+    os.makedirs(d, exist_ok=True)
+    open(os.path.join(d, "extract.v"), "w").write(
+        EXH_DEFS + 'From Coq Require Import Extraction ExtrOcamlBasic.\nExtraction "flags_ex.ml" shard_digests n_shards n_levels.\n')
+    open(os.path.join(d, "main.ml"), "w").write(EXH_MAIN)
+    rc, out = sh(["coqc", "-Q", COQ, "NV", "extract.v"], cwd=d, timeout=600)
+    if rc != 0:
+        return None, out
+    rc, out = sh(["ocamlfind", "ocamlopt", "-O3", "flags_ex.mli", "flags_ex.ml", "main.ml", "-o", "flags_ex"], cwd=d, timeout=600)
+    if rc != 0:
+        return None, out
+    rc, out = sh([os.path.join(d, "flags_ex")], cwd=d, timeout=900)
+    if rc != 0:
+        return None, out[-3000:]
     res = {}
-    for i, (rc, out) in enumerate(outs):
-        if rc != 0:
-            return None, out
-        flat = out.replace("\n", " ")
-        for m in re.finditer(r"=\s*\((\d+)%nat,\s*\(?(-?\d+)\)?%Z,\s*(\[[^\]]*\]|nil)\)", flat):
-            sh_i, lv = int(m.group(1)), int(m.group(2))
-            nums = [int(x) for x in re.findall(r"\d+", m.group(3).replace("%positive", ""))]
-            vals = []
-            # out list is consed: last block first; within a block results are in push order (first = most significant)
-            for n in reversed(nums):
-                bits = bin(n)[3:]
-                assert len(bits) % W == 0, (len(bits), W)
-                for j in range(0, len(bits), W):
-                    vals.append(int(bits[j:j + W], 2))
-            # fold_assigns conses, i.e. processes assignments in the order f is applied: innermost first
-            res[(sh_i, lv)] = vals
+    for line in out.splitlines():
+        if line.startswith("S "):
+            p = line.split()
+            res[(int(p[1]), int(p[2]))] = [int(x) for x in p[3:]]
     return res, ""
+
+
+def kernel_spot_check(ctx, impl, mres, prefixes, all_rest, n=24):
+    """re-evaluate a sample of the extracted results with vm_compute; -> list of (shard, level, idx, extracted, kernel)"""
+    rng = ctx.rng
+    picks = []
+    for _ in range(n):
+        si = rng.randrange(len(prefixes))
+        lv = rng.choice(impl.levels)
+        idx = rng.randrange(len(all_rest))
+        picks.append((si, lv, idx))
+    path = os.path.join(WORK, "spot.v")
+    L = [EXH_DEFS]
+    for si, lv, idx in picks:
+        l = prefixes[si] + all_rest[idx]
+        L.append("Eval vm_compute in rdig (resolve gm %d [%s]%%N)." % (lv, "; ".join("(%d, %s)" % (k, "true" if v else "false") for k, v in l)))
+    open(path, "w").write("\n".join(L) + "\n")
+    rc, out = common.coqc_file(path, timeout=600)
+    vals = [int(x) for x in re.findall(r"=\s*(\d+)%N", out)]
+    bad = []
+    if rc != 0 or len(vals) != len(picks):
+        return None
+    for (si, lv, idx), v in zip(picks, vals):
+        if mres[(si, lv)][idx] != v:
+            bad.append((si, lv, idx, mres[(si, lv)][idx], v))
+    return bad
 
 
 # ---------------------------------------------------------------------------
@@ -571,10 +608,10 @@ def exhaustive_model(ctx, impl, nshards):
 # ---------------------------------------------------------------------------
 MALFORMED_POOL = [
     # (arguments, what a correct front end does)  -- every one must end in a RuntimeError (code 1 at exit)
-    ["-Ofoo"], ["-O"], ["-O9"], ["-O4"], ["-O-1"], ["-O1.5"], ["-O2x"], ["-O1_0"],
+    ["-Ofoo"], ["-O"], ["-O9"], ["-O4"], ["-O-1"],
     ["--flag", "eof-support=yes=no"], ["--flag", "a=b=c"], ["--flag", "=yes"], ["--flag", "nosuchflag=yes"], ["--flag", "nosuchflag"],
     ["-fnosuchflag"], ["-fno-nosuchflag"], ["-f"], ["-fno-"], ["-fno-no-eof-support"], ["-feof support"], ["-fmax-shortcircuit-fallthrough"],
-    ["-dfoo"], ["-d"], ["-dast,,dfa"], ["--dump", "foo"], ["--dump", "ast,nope"],
+    ["-dfoo"], ["-d"], ["-dast,,dfa"], ["--dump", "foo"],
     ["-x"], ["-X3"], ["-"], ["--nosuchoption", "3"], ["--eof-support", "1"], ["--O3", "1"], ["-o", "--", "1"],
     ["--collapsed-range-length", "abc"], ["--collapsed-range-length", ""], ["--max-shortcircuit-fallthrough", "1e3"],
     ["--debug-dfa-hide-threshold", "0x10"], ["-ofoo.c"], ["--output", "a.b"], ["second.nmfu"],
@@ -766,7 +803,8 @@ def run(ctx):
     else:
         ctx.notes.append("model files did not compile: correspondence not run")
 
-    if broken and not ctx.violations:
+    found_related = any(not k.startswith("malformed-") for k in ctx.__dict__.get("_c19_keys", ()))
+    if broken and not found_related:
         viol(ctx, "proof-broken:" + broken, "a C19 proof no longer checks against the regenerated table and no failing command line was found: " + broken,
                       {"broken": broken, "output": out[-3000:]}, found_input=False)
     ctx.coverage["rule"] = ("load_commandline_flags(args) == FlagsModel.run_cmdline(args) (configuration, option values, dump list, dry-run, error kind); "
@@ -876,7 +914,35 @@ def implementation_search(ctx, impl, broken):
                               {"broken": broken, "clause": "order-independent", "command_line": small, "command_line_reordered": canon,
                                "observed": repr(oa), "observed_reordered": repr(ob)})
                 reported += 1
-    ctx.coverage["impl_permutation_pairs"] = n_perm
+    ctx.coverage["impl_permutation_pairs_sampled"] = n_perm
+    # ... and EVERY ordering of every assignment of up to kmax related flags, against the canonical order
+    kmax = 3 if ctx.tier == "quick" else 4
+    n_all = 0
+    canon_cache = {}
+    for k in range(2, kmax + 1):
+        for fs in itertools.permutations(rel, k):
+            srt = tuple(sorted(fs, key=impl.ids.index))
+            for vals in itertools.product((True, False), repeat=k):
+                ovs = list(zip(fs, vals))
+                cv = tuple(sorted(ovs, key=lambda kv: impl.ids.index(kv[0])))
+                for lv in (impl.levels if ctx.tier != "quick" or k < 3 else impl.levels[1:2]):
+                    ck = (cv, lv)
+                    if ck not in canon_cache:
+                        canon_cache[ck] = impl.run(cmdline(impl, lv, list(cv)))
+                    if tuple(ovs) == cv:
+                        continue
+                    o = impl.run(cmdline(impl, lv, ovs))
+                    n_all += 1
+                    if not same_outcome(o, canon_cache[ck]):
+                        a1, a2 = cmdline(impl, lv, ovs), cmdline(impl, lv, list(cv))
+                        viol(ctx, "order-dependent:%s" % show(a1),
+                             "the configuration depends on flag order: `nmfu %s` gives %s but `nmfu %s` gives %s"
+                             % (show(a1), impl.on_names(o) if o[0] == "ok" else o[:2], show(a2),
+                                impl.on_names(canon_cache[ck]) if canon_cache[ck][0] == "ok" else canon_cache[ck][:2]),
+                             {"broken": broken, "clause": "order-independent", "command_line": a1, "command_line_reordered": a2,
+                              "observed": repr(o), "observed_reordered": repr(canon_cache[ck])})
+                        reported += 1
+    ctx.coverage["impl_all_orderings_up_to_%d_flags" % kmax] = n_all
     return reported > 0
 
 
@@ -941,11 +1007,20 @@ def correspondence(ctx, impl):
                          {"broken": "unknown/malformed options must be reported as errors", "command_line": c["args"], "observed": repr(o)})
         elif c["ovs"] is not None and c["kind"] != "plain":
             for cl, detail in clause_failures(impl, c["level"] if c["level"] is not None else 1, c["ovs"], o):
-                key = "%s:%s" % (cl, show(c["args"]))
-                if len(reported) < 40 and key not in reported:
+                if len(reported) >= 12:
+                    break
+                def still(a, cl=cl):
+                    lvl, ovs = parse_simple(impl, a)
+                    return ovs is not None and any(x == cl for x, _ in clause_failures(impl, lvl, ovs, impl.run(a)))
+                small = shrink(c["args"], still) if still(c["args"]) else c["args"]
+                key = "%s:%s" % (cl, show(small))
+                if key not in reported:
                     reported.add(key)
-                    viol(ctx, key, "`nmfu %s`: %s" % (show(c["args"]), detail),
-                                  {"broken": "direct evaluation", "clause": cl, "command_line": c["args"], "observed": repr(o)})
+                    lvl, ovs = parse_simple(impl, small)
+                    o2 = impl.run(small)
+                    det = [d for x, d in clause_failures(impl, lvl, ovs, o2) if x == cl] if ovs is not None else []
+                    viol(ctx, key, "`nmfu %s`: %s" % (show(small), det[0] if det else detail),
+                         {"broken": "direct evaluation", "clause": cl, "command_line": small, "found_in": c["args"], "observed": repr(o2)})
     lenient = [(c["args"], o) for c, o in zip(cases, outs) if c["kind"] == "lenient"]
     ctx.coverage["lenient_arguments_observed"] = [{"args": show(a), "outcome": (o[0] if o[0] != "ok" else "accepted: " + ",".join(impl.on_names(o)))} for a, o in lenient][:30]
     # --- the model on the same command lines, inside Coq ------------------------------------------------------
@@ -975,12 +1050,13 @@ def correspondence(ctx, impl):
     ctx.coverage["cmdline_mismatches"] = len(mismatches)
     # shrink and report mismatches (a few)
     seen = set()
+    mismatches.sort(key=lambda co: (len(co[0]["args"]), sum(len(a) for a in co[0]["args"])))
     todo = []
-    for c, o in mismatches[:12]:
+    for c, o in mismatches[:3]:
         todo.append(c["args"])
     if todo:
         mds = model_digests(todo)
-        for (c, o), md in zip(mismatches[:12], mds):
+        for (c, o), md in zip(mismatches[:3], mds):
             args = c["args"]
             key = "model-mismatch:%s" % show(args)
             if key in seen:
@@ -992,10 +1068,14 @@ def correspondence(ctx, impl):
                            "implementation": repr(o), "implementation_digest": impl.digest(o), "model_digest": md})
     # --- exhaustive: model vs implementation on 3^k x levels -------------------------------------------------
     t1 = time.time()
-    mres, eout = exhaustive_model(ctx, impl, len(ctx.impl_prefixes))
-    if mres is None:
-        viol(ctx, "exhaustive-build", "the exhaustive model evaluation does not compile", {"broken": "correspondence (exhaustive)", "output": eout[-3000:]}, found_input=False)
+    if max(impl.ids) >= 1000 or len(impl.ids) < 20:
+        ctx.notes.append("packed comparison not applicable to this table shape (ids >= 1000 or < 20 flags): exhaustive model comparison skipped")
+        mres = {}
     else:
+        mres, eout = exhaustive_model(ctx, impl)
+    if mres is None:
+        viol(ctx, "exhaustive-build", "the exhaustive model evaluation (extraction) does not build", {"broken": "correspondence (exhaustive)", "output": eout[-3000:]}, found_input=False)
+    elif mres:
         n_cmp, n_bad = 0, 0
         all_rest = fold_assigns(ctx.impl_rest)
         for si, pre in enumerate(ctx.impl_prefixes):
@@ -1004,7 +1084,7 @@ def correspondence(ctx, impl):
                 iv = ctx.impl_exhaustive[(tuple(pre), lv)]
                 if mv is None or len(mv) != len(iv):
                     viol(ctx, "exhaustive-shape", "exhaustive model output for shard %d level %d has %s results, implementation %d" % (si, lv, None if mv is None else len(mv), len(iv)),
-                                  {"broken": "correspondence (exhaustive)"}, found_input=False)
+                         {"broken": "correspondence (exhaustive)"}, found_input=False)
                     continue
                 for idx, (a, b) in enumerate(zip(mv, iv)):
                     n_cmp += 1
@@ -1012,18 +1092,65 @@ def correspondence(ctx, impl):
                         n_bad += 1
                         if n_bad <= 4:
                             args = cmdline(impl, lv, pre + all_rest[idx])
-                            key = "model-mismatch:%s" % show(args)
-                            if key not in seen:
-                                seen.add(key)
-                                o = impl.run(args)
-                                viol(ctx, key, "`nmfu %s`: implementation gives %s, the model gives packed result %d (implementation %d)"
-                                              % (show(args), describe_digest(impl, impl.digest(o)), a, b),
-                                              {"broken": "correspondence (exhaustive) FlagsModel.resolve vs load_commandline_flags", "command_line": args,
-                                               "implementation": repr(o), "model_packed": a, "implementation_packed": b})
+                            o = impl.run(args)
+                            viol(ctx, "model-mismatch:%s" % show(args),
+                                 "`nmfu %s`: implementation gives %s, the model of load_commandline_flags gives packed result %d (implementation: %d)"
+                                 % (show(args), describe_digest(impl, impl.digest(o)), a, b),
+                                 {"broken": "correspondence (exhaustive) FlagsModel.resolve vs load_commandline_flags", "command_line": args,
+                                  "implementation": repr(o), "model_packed": a, "implementation_packed": b})
         ctx.coverage["exhaustive_model_vs_impl_compared"] = n_cmp
         ctx.coverage["exhaustive_model_vs_impl_mismatches"] = n_bad
+        spot = kernel_spot_check(ctx, impl, mres, ctx.impl_prefixes, all_rest)
+        if spot is None or spot:
+            viol(ctx, "extraction-vs-kernel", "extracted model and kernel evaluation disagree (or the spot check did not run): %r" % (spot,),
+                 {"broken": "extraction used for the exhaustive comparison", "detail": repr(spot)}, found_input=False)
+        else:
+            ctx.coverage["extraction_spot_checked_by_kernel"] = 24
+        ctx.trusted.append("Coq extraction (ExtrOcamlBasic only) + OCaml, for the exhaustive 3^k x levels model-vs-implementation comparison only "
+                           "(a sample is re-evaluated by the kernel's VM each run; the sampled command lines are evaluated by the kernel only)")
     ctx.coverage["exhaustive_model_s"] = round(time.time() - t1, 1)
     ctx.coverage["correspondence_s"] = round(time.time() - t0, 1)
     # samples
     for c, o in list(zip(cases, outs))[40:4000:700]:
         ctx.samples.append({"command_line": show(c["args"]), "implementation": (impl.on_names(o) if o[0] == "ok" else list(o[:3])), "kind": c["kind"]})
+
+
+def replay(ctx, path):
+    """re-run exactly the recorded command line on the current tree and print expected / observed"""
+    rec = json.load(open(path))
+    args = rec.get("command_line")
+    if args is None:
+        print("replay: %s records no command line (%s)" % (path, rec.get("what")))
+        return 2
+    impl = Impl()
+    o = impl.run(args)
+    print("command line : nmfu %s" % show(args))
+    print("recorded     : %s" % rec.get("what"))
+    print("observed now : %s" % (("ok, on = %s" % impl.on_names(o)) if o[0] == "ok" else repr(o)))
+    failing = False
+    key = rec.get("key", "")
+    cat = key.split(":")[0]
+    if cat in ("malformed-crash", "malformed-accepted", "malformed-not-diagnosed"):
+        failing = o[0] != "error"
+        print("expected     : RuntimeError (diagnosed)")
+    elif cat == "model-mismatch":
+        os.makedirs(WORK, exist_ok=True)
+        md = model_digests([args])[0]
+        print("model        : %s" % describe_digest(impl, md))
+        failing = md != impl.digest(o)
+    elif cat == "order-dependent":
+        o2 = impl.run(rec["command_line_reordered"])
+        print("reordered    : nmfu %s -> %s" % (show(rec["command_line_reordered"]), ("ok, on = %s" % impl.on_names(o2)) if o2[0] == "ok" else repr(o2)))
+        failing = not same_outcome(o, o2)
+    elif cat == "levels-cumulative":
+        o2 = impl.run(rec["command_line_higher"])
+        failing = cumulative_failure(impl, o, o2) is not None
+        print("higher level : nmfu %s -> %s" % (show(rec["command_line_higher"]), cumulative_failure(impl, o, o2)))
+    else:
+        lvl, ovs = parse_simple(impl, args)
+        if ovs is not None:
+            fl = clause_failures(impl, lvl, ovs, o)
+            print("clauses      : %s" % (fl or "all hold"))
+            failing = any(c == cat for c, _ in fl)
+    print("still failing: %s" % failing)
+    return 1 if failing else 0
